@@ -40,3 +40,7 @@ fn collect(n: u32) -> Array<u32> {
     }
     out
 }
+
+fn legacy(x: u8) -> felt252 {
+    util::old_describe(x) + util::fancy(x).into()
+}
